@@ -271,6 +271,12 @@ func (m *tsManager) SendTargetMsg(channelName string, msg *api.ReplicateMsg) {
 		log.Panic("send target msg failed", zap.String("channelName", channelName))
 		return
 	}
+	if ts.targetMsgChan == nil {
+		// the channel was cleared while this pack was in flight and CollectTS left a bare entry:
+		// nobody reads it any more, the pack is read again from the checkpoint after the next start
+		log.Warn("send target msg, the channel has been cleared", zap.String("channelName", channelName))
+		return
+	}
 	ts.targetMsgChan <- msg
 }
 
@@ -283,7 +289,7 @@ func (m *tsManager) InitTSInfo(replicateID string, channelName string, p time.Du
 	}
 	t := time.Now().Add(-p)
 	ts, ok := m.channelTS2.Get(channelKey)
-	if !ok {
+	if !ok || ts.targetMsgChan == nil {
 		m.channelTSLocks.Lock(replicateID)
 		targetChannelChan, ok := m.targetChannelChans.Get(replicateID)
 		if !ok {
